@@ -105,6 +105,8 @@ pub struct DiskRun {
     out: Vec<J>,
     /// no operation since the last restart
     fresh: bool,
+    /// partition files as of the last "snapshot" operation (source of stale pages)
+    old: Option<Vec<Vec<u8>>>,
 }
 
 fn copy_dir(from: &Path, to: &Path) -> std::io::Result<()> {
@@ -132,6 +134,7 @@ impl DiskRun {
             probes: 0,
             out: vec![json!({"a": "init"})],
             fresh: false,
+            old: None,
         };
         s.log_writes();
         Ok(s)
@@ -266,6 +269,17 @@ impl DiskRun {
                 let (res, claimed) = self.lookups_live();
                 self.out.push(json!({"a": "q", "res": res, "claimed": claimed, "reopened": self.fresh}));
             }
+            "snapshot" => {
+                self.old = Some(self.snapshot());
+            }
+            "faults" => {
+                self.log_writes();
+                let all = op.get("all").and_then(|x| x.as_bool()).unwrap_or(false);
+                let seed = op.get("seed").and_then(|x| x.as_u64()).unwrap_or(1);
+                let old = self.old.take();
+                self.fault_probes(old.as_ref(), all, seed)?;
+                self.old = old;
+            }
             "probe" => {
                 self.log_writes();
                 let res = self.probe(None)?;
@@ -281,7 +295,7 @@ impl DiskRun {
             }
             other => return Err(format!("unknown disk op {other}")),
         }
-        if a != "q" && a != "probe" {
+        if a != "q" && a != "probe" && a != "faults" && a != "snapshot" {
             self.fresh = false;
         }
         self.log_writes();
@@ -380,5 +394,198 @@ impl TombRun {
             writeln!(w, "{ev}")?;
         }
         Ok(self.out.len())
+    }
+}
+
+/// Classify every page of a whole block image (blob index pages are recognised by their checksum,
+/// entries by magic + checksum from their first page).
+pub fn describe_block(data: &[u8]) -> Vec<J> {
+    let n = data.len() / PAGE;
+    let mut out: Vec<J> = Vec::with_capacity(n);
+    let mut p = 0;
+    while p < n {
+        let page = &data[p * PAGE..(p + 1) * PAGE];
+        let one = describe_pages(page);
+        if one[0]["t"] == "idx" || one[0]["t"] == "zero" {
+            out.push(one[0].clone());
+            p += 1;
+            continue;
+        }
+        // an entry starting here?
+        let key_len = u32::from_be_bytes(page[0..4].try_into().unwrap()) as usize;
+        let value_len = u32::from_be_bytes(page[4..8].try_into().unwrap()) as usize;
+        let magic = u32::from_be_bytes(page[32..36].try_into().unwrap());
+        let pages = (36 + key_len + value_len).div_ceil(PAGE);
+        if magic & 0xFFFF_FF00 == 0x9703_2700 && pages >= 1 && p + pages <= n {
+            let d = describe_pages(&data[p * PAGE..(p + pages) * PAGE]);
+            if d.len() == pages && d.iter().all(|x| x["t"] == "ent") {
+                out.extend(d);
+                p += pages;
+                continue;
+            }
+        }
+        out.push(json!({"t": "raw"}));
+        p += 1;
+    }
+    out
+}
+
+#[derive(Clone)]
+pub struct Fault {
+    pub name: String,
+    /// (partition, page, new page content)
+    pub writes: Vec<(u32, usize, Vec<u8>)>,
+}
+
+impl DiskRun {
+    fn read_partition(&self, dir: &Path, partition: u32) -> Vec<u8> {
+        std::fs::read(dir.join(format!("foyer-storage-direct-fs-{partition:08}"))).unwrap_or_default()
+    }
+
+    /// Take a snapshot of all partition files (used later as "older generation" pages).
+    pub fn snapshot(&self) -> Vec<Vec<u8>> {
+        let nparts = self.hcfg.blocks as u32 + self.first_block_partition();
+        (0..nparts).map(|p| self.read_partition(self.runner.dir(), p)).collect()
+    }
+
+    fn enumerate_faults(&self, now: &[Vec<u8>], old: Option<&Vec<Vec<u8>>>, all: bool, rng: &mut crate::mem::Lcg) -> Vec<Fault> {
+        let first = self.first_block_partition() as usize;
+        let mut faults = vec![];
+        let used = |pg: &[u8]| pg.iter().any(|b| *b != 0);
+        for (part, data) in now.iter().enumerate() {
+            let npages = data.len() / PAGE;
+            for page in 0..npages {
+                let pg = &data[page * PAGE..(page + 1) * PAGE];
+                // faults on never-written pages change nothing that is reachable: sample a few only
+                if !used(pg) && !(all && page < 2) {
+                    continue;
+                }
+                let at = |offs: &[usize], what: &str, faults: &mut Vec<Fault>| {
+                    for o in offs {
+                        let mut m = pg.to_vec();
+                        m[*o] ^= 0x01 << (*o % 8);
+                        faults.push(Fault { name: format!("flip:{what}@{o}"), writes: vec![(part as u32, page, m)] });
+                    }
+                };
+                faults.push(Fault { name: "zero".into(), writes: vec![(part as u32, page, vec![0u8; PAGE])] });
+                if part < first {
+                    // tombstone log page: slots of (hash, sequence)
+                    at(&[3, 11, 19, 27], "tombstone", &mut faults);
+                    continue;
+                }
+                let d = describe_pages(pg);
+                match d[0]["t"].as_str().unwrap_or("raw") {
+                    "idx" => at(&[0, 7, 8, 11, 12, 20, 28, 32, 35, 300, PAGE - 1], "blobindex", &mut faults),
+                    _ => {
+                        // entry header fields: key_len 0..4, value_len 4..8, hash 8..16, sequence 16..24,
+                        // checksum 24..32, magic 32..35, compression tag 35; then payload, then padding
+                        at(&[0, 3, 4, 7, 8, 15, 16, 23, 24, 31, 32, 34, 35, 36, 44, 52, 60, 100, 2000, PAGE - 1], "entry", &mut faults);
+                        if all {
+                            for _ in 0..8 {
+                                let o = rng.below(PAGE);
+                                at(&[o], "random", &mut faults);
+                            }
+                        }
+                    }
+                }
+                // misdirected: this page answered with the content of another page (same block, other block)
+                let others: Vec<(usize, usize)> = {
+                    let mut v = vec![];
+                    for q in 0..npages {
+                        if q != page && used(&data[q * PAGE..(q + 1) * PAGE]) {
+                            v.push((part, q));
+                        }
+                    }
+                    for (p2, d2) in now.iter().enumerate().skip(first) {
+                        if p2 != part {
+                            for q in 0..d2.len() / PAGE {
+                                if used(&d2[q * PAGE..(q + 1) * PAGE]) && (all || q == page || q == 0 || q == 1) {
+                                    v.push((p2, q));
+                                }
+                            }
+                        }
+                    }
+                    v
+                };
+                for (p2, q) in others {
+                    let other = now[p2][q * PAGE..(q + 1) * PAGE].to_vec();
+                    // swap
+                    faults.push(Fault {
+                        name: format!("swap:{p2}/{q}"),
+                        writes: vec![(part as u32, page, other.clone()), (p2 as u32, q, pg.to_vec())],
+                    });
+                    // misdirected read/write: copy without swapping
+                    faults.push(Fault { name: format!("copy:{p2}/{q}"), writes: vec![(part as u32, page, other)] });
+                }
+                // stale sector: the page as it was at an earlier point of the workload
+                if let Some(old) = old {
+                    let o = &old[part][page * PAGE..(page + 1) * PAGE];
+                    if o != pg {
+                        faults.push(Fault { name: "stale".into(), writes: vec![(part as u32, page, o.to_vec())] });
+                    }
+                }
+            }
+        }
+        faults
+    }
+
+    /// Apply every enumerated fault to a copy of the current (quiescent) image, open the copy with a
+    /// fresh engine (quiet recovery), look every key up; one `fprobe` event per fault.
+    pub fn fault_probes(&mut self, old: Option<&Vec<Vec<u8>>>, all: bool, seed: u64) -> Result<usize, String> {
+        use std::os::unix::fs::FileExt;
+        let now = self.snapshot();
+        let mut rng = crate::mem::Lcg(seed);
+        let faults = self.enumerate_faults(&now, old, all, &mut rng);
+        let src = self.runner.dir().to_path_buf();
+        let first = self.first_block_partition();
+        let mut count = 0;
+        for f in faults {
+            let dst = PathBuf::from(format!("{}-fault", src.display()));
+            copy_dir(&src, &dst).map_err(|e| format!("copy: {e}"))?;
+            let mut blocks: std::collections::BTreeMap<u32, Vec<u8>> = Default::default();
+            let mut tomb: Option<(usize, Vec<J>)> = None;
+            for (part, page, content) in f.writes.iter() {
+                let name = format!("foyer-storage-direct-fs-{part:08}");
+                let file = std::fs::OpenOptions::new().write(true).open(dst.join(name)).map_err(|e| format!("open: {e}"))?;
+                file.write_all_at(content, (*page * PAGE) as u64).map_err(|e| format!("write: {e}"))?;
+                if *part >= first {
+                    let d = blocks.entry(*part).or_insert_with(|| now[*part as usize].clone());
+                    d[*page * PAGE..(*page + 1) * PAGE].copy_from_slice(content);
+                } else {
+                    tomb = Some((*page, tomb_slots(content)));
+                }
+            }
+            let mut h2 = self.hcfg.clone();
+            h2.policy = "woi".into();
+            let res: Vec<i64> = {
+                let opened = std::panic::catch_unwind(std::panic::AssertUnwindSafe(|| -> Result<Vec<i64>, String> {
+                    let mut r2 = HybridRunner::with_dir(&self.mcfg, &h2, dst.clone())?;
+                    r2.apply(&json!({"a": "init"}))?;
+                    Ok(self.keys.iter().map(|k| r2.store_load(*k)).collect())
+                }));
+                match opened {
+                    Ok(Ok(v)) => v,
+                    Ok(Err(_)) => vec![-3; self.keys.len()],
+                    Err(_) => vec![-4; self.keys.len()],
+                }
+            };
+            let _ = std::fs::remove_dir_all(&dst);
+            let bl: Vec<J> = blocks
+                .iter()
+                .map(|(part, data)| json!({"b": part - first, "ps": describe_block(data)}))
+                .collect();
+            let mut ev = json!({"a": "fprobe", "fault": f.name, "blocks": bl, "res": res});
+            if let Some((p, ts)) = tomb {
+                ev["tp"] = json!(p);
+                ev["ts"] = json!(ts);
+            } else {
+                ev["tp"] = json!(-1);
+                ev["ts"] = json!([]);
+            }
+            self.out.push(ev);
+            count += 1;
+        }
+        self.probes += count;
+        Ok(count)
     }
 }
